@@ -545,7 +545,13 @@ func (k *Kernel) addProposedHeader(ctx context.Context, s *kState, ph tmconsensu
 		for blockHash, laterSigs := range commitProofs {
 			target := backfillVRV.PrecommitProofs[blockHash]
 			if target == nil {
-				panic("TODO: backfill unknown block precommit")
+				// The header's previous commit proof includes precommits
+				// for a target we have no precommits for (typically nil or a block that lost).
+				// Those votes do not affect the commit we already have,
+				// and a proposer is free to include them,
+				// so skip them rather than crashing.
+				// TODO: build a new proof to retain these precommits.
+				continue
 			}
 
 			laterSparseCommit := gcrypto.SparseSignatureProof{
